@@ -1,6 +1,8 @@
-(** * C07 - acceleration shortcuts never change an answer (theorems are added below as the slab model grows). *)
+(** * C07 - acceleration shortcuts never change an answer.
+    Proved: the surface pre-test, the kd shortcut, and the sufficiency of the slab/fault depth cut-off for chains of
+    straight pieces.  Arcs, the surface bounding box and spherical worlds: decided by the hook on/off oracle. *)
 From Coq Require Import Reals Lra List.
-From WB Require Import Num Base RNum Kernels KdSpec KdProofs SurfaceProofs.
+From WB Require Import Num Base RNum Kernels KdSpec KdProofs SurfaceProofs SlabSpec SlabSpecProofs.
 Import ListNotations.
 Local Open Scope R_scope.
 
@@ -27,7 +29,17 @@ Section C07.
     let res := fst (@find_closest_points R N nodes cp) in
     forall i, (i < length nodes)%nat -> snd res <= @kd_dist R N (nth i nodes (@kd_default R N)) cp.
   Proof. intros nodes cp H1 H2 H3 res i Hi. apply (find_closest_points_correct sp nodes cp H1 H2 H3). exact Hi. Qed.
+
+  (** depth cut-off of slabs and faults, chains of straight pieces: a point whose foot has arclength a on a
+      piece (0 <= a <= L) after the pieces [prefix], offset 0 <= d along the downward normal, lies no deeper
+      below the start of the surface than (length of the prefix + L) + d; so every member of the feature
+      (along <= total length, distance <= thickness) passes depth <= min depth + total length + thickness *)
+  Theorem C07_depth_cutoff_straight : forall prefix sy L th a d,
+    (forall L' th', In (L', th') prefix -> 0 <= L') -> 0 <= a <= L -> 0 <= d ->
+    chain_end_depth prefix sy + a * sin th + d * cos th <= sy + (chain_length prefix + L) + d.
+  Proof. intros prefix sy L th a d H1 H2 H3. exact (cutoff_sufficient_straight prefix sy L th a d H1 H2 H3). Qed.
 End C07.
 
 Print Assumptions C07_pretest.
 Print Assumptions C07_kd_is_exact.
+Print Assumptions C07_depth_cutoff_straight.
